@@ -106,18 +106,17 @@ Print Assumptions C20_413_gate_exact.
 Theorem C20_gate_dispatch_exact : forall g r,
   gate g r = GDispatch <->
   r_pref r = PrefOk /\ r_method r = true /\ r_wk r = WkNone /\ r_auth r <> AuthFail /\
-  (internal g = true -> r_cl r <> ClBad /\ forall z, r_cl r = ClInt z -> z = 0 \/ max_len g <= 0 \/ z <= max_len g).
+  (internal g = true -> r_cl r <> ClBad /\
+     forall z, r_cl r = ClInt z -> 0 <= z /\ (z = 0 \/ max_len g <= 0 \/ z <= max_len g)).
 Proof. exact c20_gate_dispatch_exact. Qed.
 Print Assumptions C20_gate_dispatch_exact.
 
-(* NOT part of the property text ("declared body exceeds max_content_length"), recorded for the stronger reading
-   "no request body larger than max_content_length is ever read": refuted by the code as it is -- a NEGATIVE declared
-   length reaches the handler, which then reads until EOF (witness replayed on the real code by checks/C20.py,
-   see notes/C20.md and notes/fixes/C20-negative-content-length.patch). *)
-Theorem C20_size_bound_strong_refuted : exists g r z, internal g = true /\ 0 < max_len g /\ r_cl r = ClInt z /\ z < 0 /\
-  gate g r = GDispatch.
-Proof. exact ex_negative_length_dispatched. Qed.
-Print Assumptions C20_size_bound_strong_refuted.
+(* stronger than the property text, holds since the negative-length fix: whatever reaches a handler of the internal
+   server declares a length that is non-negative and within the limit *)
+Theorem C20_size_bound_strong : forall g r z, internal g = true -> r_cl r = ClInt z -> gate g r = GDispatch ->
+  0 <= z /\ (0 < max_len g -> z <= max_len g).
+Proof. exact c20_size_bound_strong. Qed.
+Print Assumptions C20_size_bound_strong.
 
 (* in the server: status 413 (or an earlier gate's status), the handler is not invoked, the thread finishes *)
 Theorem C20_413 : forall cfg s w r z, reachable cfg s -> internal (gc cfg) = true -> 0 < max_len (gc cfg) ->
